@@ -1,6 +1,7 @@
 package sym
 
 import (
+	"os/exec"
 	"crypto/sha1"
 	"encoding/hex"
 	"fmt"
@@ -65,6 +66,7 @@ type AssertStat struct {
 	Skipped      int     `json:"skipped"`       // not selected by -only
 	Seconds      float64 `json:"seconds"`
 	ConcreteFail int     `json:"concrete_fail"` // concrete mode: assertion false
+	Fallback     int     `json:"decided_by_fallback_solver"`
 }
 
 type HarnessResult struct {
@@ -303,6 +305,7 @@ func (e *Engine) finish(p *Path) {
 		a.Skipped += st.Skipped
 		a.Seconds += st.Seconds
 		a.ConcreteFail += st.ConcreteFail
+		a.Fallback += st.Fallback
 	}
 	for _, c := range p.covers {
 		r.Covers[c]++
@@ -520,7 +523,11 @@ func (p *Path) decide(conds []*Term, kind string) int {
 		p.assume(conds[idx])
 		return idx
 	}
+	// settle pending assumptions first, so that alternatives are only ever
+	// enqueued under a satisfiable path condition
+	p.ensureFeasible()
 	var feas []int
+	solverSat := false
 	for i, c := range conds {
 		if c.IsFalse() {
 			continue
@@ -535,6 +542,9 @@ func (p *Path) decide(conds []*Term, kind string) int {
 			continue
 		}
 		r := p.check(c)
+		if r == Sat {
+			solverSat = true
+		}
 		if r != Unsat {
 			if r == Unknown {
 				p.notes = append(p.notes, "unknown feasibility at "+kind)
@@ -549,7 +559,9 @@ func (p *Path) decide(conds []*Term, kind string) int {
 		}
 		p.end("INFEASIBLE", "no feasible alternative at "+kind)
 	}
-	p.pcDirty = false
+	if solverSat {
+		p.pcDirty = false // the solver just found the path condition (plus an alternative) satisfiable
+	}
 	idx := feas[0]
 	for _, o := range feas[1:] {
 		alt := make([]int, len(p.trace)+1)
@@ -639,10 +651,19 @@ func (p *Path) doAssert(cond *Term, id string, where string) {
 	r := p.check(neg)
 	a.Checked++
 	a.Seconds += time.Since(t0).Seconds()
+	if r == Unknown {
+		// retry on the other solvers before declaring the query inconclusive
+		if fr, who := p.fallbackCheck(neg); fr != Unknown {
+			r = fr
+			p.notes = append(p.notes, "decided by "+who)
+			a.Fallback++
+		}
+	}
 	p.maybeDump(neg, id, r)
 	switch r {
 	case Unsat:
 		a.Unsat++
+		p.assume(cond) // proven under the path condition: keep it as a lemma for later queries
 	case Unknown:
 		a.Unknown++
 	case Sat:
@@ -765,8 +786,21 @@ func (p *Path) goMain(g *G, body func()) {
 		case pathEnd:
 		case goPanic:
 			if p.status == "" {
-				p.status = "PANIC"
-				p.statusMsg = p.describe(x.v)
+				msg := p.describe(x.v)
+				if id, ok := p.ghost["__nopanic"]; ok {
+					// the harness asserted that the code under test does not panic
+					func() {
+						defer func() { recover() }()
+						p.violationNow(id.(string), "panic: "+msg)
+					}()
+					if p.status == "" {
+						p.status = "OK"
+						p.statusMsg = "ended by a panic reported as violation of " + id.(string)
+					}
+				} else {
+					p.status = "PANIC"
+					p.statusMsg = msg
+				}
 			}
 		default:
 			if p.status == "" {
@@ -777,4 +811,38 @@ func (p *Path) goMain(g *G, body func()) {
 		p.endOnce.Do(func() { close(p.finished) })
 	}()
 	body()
+}
+
+// fallbackCheck re-runs the query under cvc5 and z3 5.x (fresh processes).
+func (p *Path) fallbackCheck(assump *Term) (Result, string) {
+	script := "(set-logic ALL)\n" + p.sol.Script(assump)
+	f, err := os.CreateTemp("", "gosym-fallback-*.smt2")
+	if err != nil {
+		return Unknown, ""
+	}
+	defer os.Remove(f.Name())
+	f.WriteString(script)
+	f.Close()
+	budget := p.eng.Opt.TimeoutMs / 1000 * 3
+	if budget < 60 {
+		budget = 60
+	}
+	for _, c := range [][]string{
+		{"cvc5", "--incremental", fmt.Sprintf("--tlimit=%d", budget*1000), f.Name()},
+		{"z3-new", fmt.Sprintf("-T:%d", budget), f.Name()},
+	} {
+		out, _ := exec.Command(c[0], c[1:]...).Output()
+		txt := string(out)
+		if strings.Contains(txt, "(error") {
+			continue
+		}
+		lines := strings.Split(strings.TrimSpace(txt), "\n")
+		switch lines[len(lines)-1] {
+		case "unsat":
+			return Unsat, c[0]
+		case "sat":
+			return Sat, c[0]
+		}
+	}
+	return Unknown, ""
 }
